@@ -161,6 +161,9 @@ const wireSyncTimeout = 60 * time.Second
 
 var wireSyncFails int
 
+// once the marker was lost twice in this process the remaining cases are not run
+var wireSyncLost = Result{Obs: "?sync-lost", Oracle: "wire-sync: the client stopped writing in earlier cases of this run; case not run", Sig: "sync-lost"}
+
 // A client that stopped writing costs wireSyncTimeout per case. Once that has happened
 // twice in a process, a flag file keyed by the parent process (the bin/check run) tells
 // this and later gircx processes of the same run (shrinking, search) to wait only 1s.
@@ -676,6 +679,9 @@ func runHelperCase(c Case) Result {
 		return Result{Obs: "?bad-case"}
 	}
 	a := rest[:n]
+	if wireSyncFails >= 2 {
+		return wireSyncLost
+	}
 	if h == "sendraw" { // QUIT would close the client; non-ASCII ToUpper is not modelled
 		for _, raw := range a {
 			if rawOutsideModel(raw) {
@@ -1028,6 +1034,9 @@ func runEventCase(c Case) Result {
 		return Result{Obs: "?bad-case"}
 	}
 	_ = rest
+	if wireSyncFails >= 2 {
+		return wireSyncLost
+	}
 	x := wireSession(variant)
 	if got := x.s.C.MaxEventLength(); got != max {
 		return Result{Obs: fmt.Sprintf("?maxlen=%d", got)}
